@@ -154,6 +154,15 @@ func (i *initialStatus) process() (*initialStatusResult, error) {
 				aggLayerLastCert.ID()),
 			cert: aggLayerLastCert}, nil
 	}
+	// CASE 3.3: aggsender stopped between sending to agglayer the certificate that replaces an InError one
+	// (same height) and storing it to the local storage
+	if localLastCert.Status.IsInError() && aggLayerLastCert.Height == localLastCert.Height &&
+		localLastCert.CertificateID != aggLayerLastCert.CertificateID {
+		return &initialStatusResult{action: InitialStatusActionInsertNewCert,
+			message: fmt.Sprintf("agglayer have a cert that replaces the local InError one, storing cert: %s",
+				aggLayerLastCert.ID()),
+			cert: aggLayerLastCert}, nil
+	}
 	// CASE 4: AggSender and AggLayer are not on the same page
 	// note: we don't need to check individual fields of the certificate
 	// because CertificateID is a hash of all the fields
